@@ -325,6 +325,10 @@ func newEventFromTrustedJSONWithEventIDV2(eventID string, eventJSON []byte, reda
 	if err := json.Unmarshal(eventJSON, &res); err != nil {
 		return nil, err
 	}
+	if res == nil {
+		// the JSON text "null" unmarshals into a nil pointer
+		return nil, fmt.Errorf("gomatrixserverlib: event is not a JSON object")
+	}
 
 	if err := notOnlyTooManyBytes(checkID(res.eventFields.RoomID, "room", '!')); err != nil {
 		return nil, err
